@@ -4,6 +4,7 @@ import (
 	"fmt"
 	"net/http"
 	"reflect"
+	"slices"
 
 	"github.com/jub0bs/cors"
 	"github.com/jub0bs/cors/internal/zzverif/vlib"
@@ -34,16 +35,17 @@ type c11Case struct {
 }
 
 type c11Inner struct {
-	self    http.Handler // the wrapped handler (for nested dispatch)
-	depth   int
-	nested  int
-	damaged string
-	spec    c11Handler
-	calls   int
-	reqs    []*http.Request
-	ws      []http.ResponseWriter
-	atEntry http.Header
-	atExit  http.Header
+	self       http.Handler // the wrapped handler (for nested dispatch)
+	depth      int
+	nested     int
+	damaged    string
+	spec       c11Handler
+	calls      int
+	reqs       []*http.Request
+	ws         []http.ResponseWriter
+	atEntry    http.Header
+	reqAtEntry http.Header // the request's header map when the handler was entered
+	atExit     http.Header
 }
 
 func cloneHeader(h http.Header) http.Header {
@@ -71,6 +73,7 @@ func (in *c11Inner) ServeHTTP(w http.ResponseWriter, r *http.Request) {
 	in.ws = append(in.ws, w)
 	if in.calls == 1 {
 		in.atEntry = cloneHeader(w.Header())
+		in.reqAtEntry = cloneHeader(r.Header)
 	}
 	for k, v := range in.spec.Hdr {
 		w.Header()[k] = append([]string(nil), v...)
@@ -130,11 +133,37 @@ func c11Judge(k c11Case) *vlib.Failure {
 	h := bm.wrap(inner)
 	inner.self = h
 	rec := vlib.NewRec()
+	// the earlier link of the chain stores value slices that it keeps (w.Header()[k] = v): the middleware may replace
+	// a header, it may not write through into storage that is not its own
+	kept := map[string][]string{}
 	for kk, v := range k.Preset {
-		rec.H[kk] = append([]string(nil), v...)
+		kept[kk] = append([]string(nil), v...)
+		rec.H[kk] = kept[kk][:len(v):len(v)]
 	}
 	req := k.Req.HTTP()
+	sent := map[string][]string{}
+	for kk, v := range req.Header {
+		sent[kk] = append([]string(nil), v...)
+	}
 	h.ServeHTTP(rec, req)
+	for kk, v := range k.Preset {
+		if !slices.Equal(kept[kk], v) {
+			return vlib.Failf("the value slice an earlier handler had stored under %s held %q; after the exchange the same slice holds %q (the middleware wrote into storage it does not own)", kk, v, kept[kk])
+		}
+	}
+	// the request the handler is entered with (for a preflight: the request after the exchange) carries the headers
+	// that came in. (What the handler's own writes do afterwards is not judged: the library stores a sub-slice of the
+	// request's Origin values as Access-Control-Allow-Origin, so a handler that Adds to that header of a request with
+	// two Origin lines overwrites the second one itself.)
+	seen := req.Header
+	if inner.reqAtEntry != nil {
+		seen = inner.reqAtEntry
+	}
+	for kk, v := range sent {
+		if !slices.Equal(seen[kk], v) {
+			return vlib.Failf("request header %s was %q when the request came in; the wrapped handler (or, for a preflight, the caller afterwards) sees %q", kk, v, seen[kk])
+		}
+	}
 	configured := k.Passthrough == 0
 	isPreflight := configured && k.Req.Method == "OPTIONS" && len(k.Req.Hdr["Origin"]) > 0 && len(k.Req.Hdr["Access-Control-Request-Method"]) > 0
 	if isPreflight {
@@ -308,7 +337,8 @@ func checkC11(c *vlib.Ctx) (string, string) {
 		}
 	}
 	handlers = append(handlers, c11Handler{Status: 200, Hdr: map[string][]string{"X-Arbitrary": {"1"}}, Nested: true})
-	presets := []map[string][]string{nil, {"Vary": {"before"}}, {"X-Up": {"1"}}, {"Access-Control-Allow-Origin": {"https://upstream.example"}, "Vary": {"a", "b"}}, {"Access-Control-Max-Age": {"9"}, "Set-Cookie": {"a=b"}}}
+	presets := []map[string][]string{nil, {"Vary": {"before"}}, {"X-Up": {"1"}}, {"Access-Control-Allow-Origin": {"https://upstream.example"}, "Vary": {"a", "b"}}, {"Access-Control-Max-Age": {"9"}, "Set-Cookie": {"a=b"}},
+		{"Access-Control-Allow-Origin": {"https://upstream.example"}, "Access-Control-Allow-Credentials": {"true"}, "Access-Control-Expose-Headers": {"x-upstream", "x-up2"}}}
 	prod := vlib.Product{Sizes: []int{len(cds), len(methods), len(origins), len(acrms), len(acrhs), len(acrpns), len(handlers), len(presets)}}
 	c.ParRange(prod.Count(), 256, "C11 product", func(i int64) {
 		var tmp [8]int
